@@ -23,6 +23,10 @@ mod hostile;
 mod interop;
 #[path = "../../scen/io_faults.rs"]
 mod io_faults;
+#[path = "../../scen/memory.rs"]
+mod memory;
+#[path = "../../scen/misconfig.rs"]
+mod misconfig;
 #[path = "../../scen/optgen.rs"]
 mod optgen;
 #[path = "../../scen/rt.rs"]
@@ -44,7 +48,7 @@ impl Engine for St {
     }
 
     fn properties(&self) -> Vec<&'static str> {
-        vec!["C01", "C02", "C03", "C04", "C05", "C06", "C07", "C11", "C12", "C13", "C16", "C18"]
+        vec!["C01", "C02", "C03", "C04", "C05", "C06", "C07", "C11", "C12", "C13", "C16", "C17", "C18", "C19"]
     }
 
     fn plan(&self, prop: &str, tier: &str) -> Vec<(String, u64)> {
@@ -62,6 +66,8 @@ impl Engine for St {
             "C12" => vec![p("concat.xz", 40000, 1_000_000), p("concat.lzip", 20000, 500_000)],
             "C13" => vec![p("determ.repeat", 12000, 400_000), p("determ.partition", 12000, 400_000)],
             "C16" => vec![p("exact", 80000, 3_000_000)],
+            "C17" => vec![p("mem.encoder", 1200, 20000), p("mem.decoder.lzma", 4000, 60000), p("mem.decoder.lzma2", 2000, 30000), p("mem.limit", 8000, 100000)],
+            "C19" => vec![p("misconfig", 30000, 600_000)],
             "C18" => vec![p("sizes", 40000, 1_500_000)],
             _ => vec![],
         }
@@ -76,6 +82,8 @@ impl Engine for St {
             "C03" | "C11" => interop::gen(prop, scen, k, seed, tier),
             "C04" => corrupt::gen(prop, scen, k, seed, tier),
             "C06" => hostile::gen(prop, scen, k, seed, tier),
+            "C17" => memory::gen(prop, scen, k, seed, tier),
+            "C19" => misconfig::gen(prop, scen, k, seed, tier),
             _ => Case::default(),
         };
         c.prop = prop.to_string();
@@ -94,6 +102,8 @@ impl Engine for St {
             "bcj2" => bcj2::exec(case, keep_log),
             "corrupt" => corrupt::exec(case, keep_log),
             "hostile" => hostile::exec(case, keep_log),
+            "mem" => memory::exec(case, keep_log),
+            "misconfig" => misconfig::exec(case, keep_log),
             _ => RunResult::default(),
         }
     }
@@ -139,6 +149,18 @@ impl Engine for St {
                 level: "exploration",
                 rule: "hostile.random: random / low-entropy / zero strings, raw or behind the format's magic or a plausible header, into LZMA (.lzma header), LZMA2, XZ, LZIP, each BCJ, Delta and BCJ2 (four streams cut from the bytes) readers. hostile.mutated: valid streams with 1-4 storage faults, XZ header/footer CRCs recomputed in half of the runs so damage reaches LZMA2. hostile.fields: one size/count/property field at an extreme (index record count up to 2^62 with CRC fix-up, dictionary property 40, LZIP 512 MiB dictionary, member_size lies, .lzma dict 2^32-1 / size 2^64-1, LZMA2 chunk sizes). hostile.params: valid stream, hostile caller parameters (props 0-255, dict 0..2^32-1, size 0..2^64-1, lc/lp/pb out of range). hostile.many: up to 60000 (200000 thorough) empty XZ streams / LZIP members / 1-byte LZMA2 chunks. After the first error three more reads are issued. Monitors: panic (caught), abort / stack overflow (worker death attributed to the seed), sticky Interrupted, output cap len*20000+16 MiB, peak heap <= declared dictionary + 64*len + 4*output + 16 MiB + 2*largest read buffer.".into(),
                 assumptions: vec!["the declared dictionary size is taken from a tolerant scan of the bytes (largest plausible declaration)".into(), "allocation failure cannot be injected as a recoverable fault in Rust; requests above 8 GiB are refused and abort the worker, which is reported".into()],
+                real: real.clone(), stubs: stubs.clone(), exhaustive_part: None,
+            },
+            "C17" => PropMeta {
+                level: "exploration",
+                rule: format!("allocator seam: a measurement scope around construction plus a complete run. mem.encoder: LZMAOptions::get_memory_usage() vs the peak of LZMA2Writer (25% with chunk_size) / LZMAWriter over std::io::sink(); mem.decoder.*: lzma_get_memory_usage / _by_props and lzma2_get_memory_usage vs the peak of LZMAReader / LZMA2Reader told that dictionary size; grid dict in {{4 KiB .. 8 MiB (quick), .. 256 MiB (thorough)}} plus random sizes x lc/lp/pb x mode x match finder. Oracle: peak <= estimate and estimate <= {} * peak + {} KiB (constants measured once on the repaired tree). mem.limit: .lzma headers (dict up to 2^32-1, props incl. invalid) x limits need-10^6, -1, 0, +1, +1000 KiB: need > limit must give OutOfMemory with no request above 64 KiB before the error. Peak = requested bytes, not resident pages. Non-trivial: every run; distinct = distinct (parameters, estimate, peak) digests.", memory::F, memory::S >> 10),
+                assumptions: vec!["requested bytes are measured, not resident memory".into()],
+                real: real.clone(), stubs: stubs.clone(), exhaustive_part: None,
+            },
+            "C19" => PropMeta {
+                level: "exploration",
+                rule: "boundary grid over the public option structs: start from sane defaults, push 1-3 fields to a boundary (lc 0..100, lp 0..100, pb 0..100, lc/lp combinations around 4, dict 0/1/4095/4096/4097/65535/.../2^32-1 (the largest only in the thorough tier), nice_len 0,1,2,3,4,7,8,273,274,1000, depth i32::MIN..MAX, delta distance 0,1,256,257,1000, BCJ offsets unaligned and 2^32-1, 2-5 extra filters, empty/short/long preset dictionary, unit size 1/4096/2^64-1) x {.lzma 3 framings, LZMA2, XZ, LZIP} x inputs 0..70000 bytes (700000 thorough) x single write or write/flush/write. Oracle: some operation returns Err, or the stream decodes with the crate's own reader to the written bytes; never a panic. This is a configuration grid run through the harness; the simulator contributes little here.".into(),
+                assumptions: vec!["an error from any of new/write/flush/finish counts as rejection (LZMA2Writer::new and LZIPWriter::new cannot fail and report at the first operation)".into()],
                 real: real.clone(), stubs: stubs.clone(), exhaustive_part: None,
             },
             "C07" => PropMeta {
